@@ -17,6 +17,7 @@ package main
 import (
 	"context"
 	"fmt"
+	"math/rand"
 	"os"
 	"sync/atomic"
 	"time"
@@ -24,6 +25,8 @@ import (
 	"github.com/paulmach/osm"
 	"github.com/paulmach/osm/osmpbf"
 
+	"verif/harness/pbfgen"
+	"verif/harness/pbfrun"
 	"verif/harness/pipesup"
 	"verif/harness/wire"
 )
@@ -96,6 +99,132 @@ func scan1(f *pipesup.File, procs, perturb int, seed int64, cancelAt int64) resu
 		}
 	}
 	return res
+}
+
+// ---- "rich" family: files drawn with pbfgen.RandomFile (dense nodes, ways, relations; zlib and raw
+// blobs; per-block varying granularity / lat_offset / lon_offset / date_granularity and varying
+// presence of these fields and of every optional column; string tables with shared and distinct
+// strings) with more blocks than decoders.  Every object is identified by a token that hashes ALL
+// its content (pbfrun.Tok), taken when Scan returns it and again after the scan has ended (the
+// caller retains every object), and compared with the token of the element the description means
+// (pbfrun.ElemTok) — so state leaking from block to block inside one decoder goroutine, or memory
+// of a delivered object being reused, changes the result.
+type richRes struct {
+	Toks   []uint64
+	Err    int64
+	Retain string
+}
+
+func scanRich(data []byte, procs, perturb int, seed int64) richRes {
+	ch := make(chan richRes, 1)
+	go func() {
+		jit := pipesup.Jitter(seed, 120)
+		f := &pipesup.File{Bytes: data, Starts: []int64{0, int64(len(data))}}
+		rd := pipesup.NewReader(f)
+		var reads int64
+		if perturb&1 != 0 {
+			rd.Chunk = func() int { return 1 + int(uint64(seed+atomic.LoadInt64(&reads)*7919)%97) }
+			rd.Pause = func() { jit(1000000 + atomic.AddInt64(&reads, 1)) }
+		}
+		sc := osmpbf.New(context.Background(), rd, procs)
+		if perturb&2 != 0 {
+			sc.FilterNode = func(n *osm.Node) bool { jit(int64(n.ID)); return true }
+			sc.FilterWay = func(w *osm.Way) bool { jit(int64(w.ID)); return true }
+			sc.FilterRelation = func(r *osm.Relation) bool { jit(int64(r.ID)); return true }
+		}
+		var res richRes
+		var kept []osm.Object
+		for sc.Scan() {
+			o := sc.Object()
+			kept = append(kept, o)
+			res.Toks = append(res.Toks, pbfrun.Tok(o))
+			if perturb&4 != 0 {
+				jit(int64(len(kept)) + 5000000)
+			}
+		}
+		res.Err = pipesup.ErrCode(sc.Err())
+		sc.Close()
+		for i, o := range kept {
+			if pbfrun.Tok(o) != res.Toks[i] {
+				res.Retain = fmt.Sprintf("object %d (%s) changed after it was delivered: now %s", i, o.ObjectID(), canon(o))
+				break
+			}
+		}
+		ch <- res
+	}()
+	select {
+	case r := <-ch:
+		return r
+	case <-time.After(20 * time.Second):
+		return richRes{Err: -1, Retain: "scan did not finish within 20 s (pipeline deadlock)"}
+	}
+}
+
+func canon(o osm.Object) string {
+	switch v := o.(type) {
+	case *osm.Node:
+		return pbfrun.CanonNode(v)
+	case *osm.Way:
+		return pbfrun.CanonWay(v)
+	case *osm.Relation:
+		return pbfrun.CanonRelation(v)
+	}
+	return "?"
+}
+
+func richCase(rng *rand.Rand, seed int64) *wire.Case {
+	procs := 1 + rng.Intn(6)
+	if rng.Intn(6) == 0 {
+		procs = 7 + rng.Intn(10)
+	}
+	o := pbfgen.Opts{MinBlocks: 3*procs + 1, MaxBlocks: 3*procs + 4, MinElements: 1, MaxItems: 4, MaxGroups: 2, ZlibPct: 70, NoHeader: rng.Intn(8) == 0}
+	d := pbfgen.RandomFile(rng, o)
+	pbfrun.Renumber(d)
+	data, _ := pbfgen.Encode(d)
+	perturb := rng.Intn(8)
+	base := scanRich(data, 1, 0, seed)
+	r := scanRich(data, procs, perturb, seed)
+	c := &wire.Case{Class: "rich"}
+	c.Int(3).Int(int64(procs)).Bool(d.Header == nil)
+	c.Len(len(d.Blocks))
+	var exp []uint64
+	for i, b := range d.Blocks {
+		t := pbfrun.BlockToks(b, i, [3]bool{})
+		exp = append(exp, t...)
+		c.Len(len(t))
+		for _, x := range t {
+			c.Tok(x)
+		}
+	}
+	c.Int(int64(perturb))
+	c.Len(len(r.Toks))
+	for _, x := range r.Toks {
+		c.Tok(x)
+	}
+	c.Int(r.Err)
+	var firstDiff interface{}
+	for i := range r.Toks {
+		if i >= len(exp) || r.Toks[i] != exp[i] {
+			firstDiff = map[string]interface{}{"index": i}
+			break
+		}
+	}
+	switch {
+	case r.Retain != "":
+		c.OracleFail = r.Retain
+	case len(base.Toks) != len(r.Toks) || base.Err != r.Err:
+		c.OracleFail = fmt.Sprintf("procs=%d delivers %d objects err %d, procs=1 delivers %d objects err %d", procs, len(r.Toks), r.Err, len(base.Toks), base.Err)
+	default:
+		for i := range r.Toks {
+			if r.Toks[i] != base.Toks[i] {
+				c.OracleFail = fmt.Sprintf("object %d differs between procs=%d and procs=1 (same file)", i, procs)
+				break
+			}
+		}
+	}
+	c.Desc = map[string]interface{}{"procs": procs, "perturb": perturb, "file": d, "delivered_tokens": r.Toks, "expected_tokens": exp,
+		"first_difference": firstDiff, "err": r.Err, "note": "token = kind + 4*hash of the full canonical content of the object"}
+	return c
 }
 
 func itemsToks(c *wire.Case, f *pipesup.File) {
@@ -200,6 +329,18 @@ func main() {
 			w.Count(fmt.Sprintf("cut_delivered_all:%v", len(r.IDs) == len(f.Expected())))
 		}
 		w.Count(fmt.Sprintf("procs:%d", bucket(procs)))
+	}
+	nRich := int(45 * a.Scale)
+	if a.Tier == "thorough" {
+		nRich *= 10
+	}
+	if a.Extra["stress"] != "" {
+		nRich *= 2
+	}
+	for i := 0; i < nRich; i++ {
+		c := richCase(rng, a.Seed*7+int64(i))
+		w.Add(c)
+		w.Count("rich")
 	}
 	// canaries: two adjacent delivered ids swapped; the error code altered
 	{
